@@ -153,6 +153,7 @@ def generate(ck):
             )
         else:
             descs.append(dict(base, kind="malformed", which=int(rng.integers(0, 6))))
+    descs.append({"kind": "python-O", "curve": "ideal", "M": 1.0, "tau": 1.0, "end": 1.0, "n": 50, "t0": 0.0})
     return descs
 
 
@@ -174,6 +175,19 @@ def run_case(ck, desc):
 
     kind = desc["kind"]
     SPY["calls"].clear()
+    if kind == "python-O":
+        # malformed bounds are rejected in an interpreter started with -O as well
+        snips = [f"from bluebonnet.forecast import Bounds\nBounds(M={m!r}, tau={t!r})\n" for m, t in (((1, 2, 3), (0, 1)), ((1, 2), (1,)), ((1, 0), (0, 1)), ((0, 1), (20, 10)), ((3.0, 3.0), (0, 1)), ((0, 1), (7.0, 7.0)))]
+        outs = instrument.outcomes_under_optimized_interpreter(snips)
+        for sn, o in zip(snips, outs):
+            if o == "returned":
+                ck.violation("malformed-bounds-rejected", {"in": "python -O", "snippet": sn}, desc)
+            elif not o.startswith("raised:"):
+                ck.inconclusive_because(f"python -O child: {o}")
+                return False, None
+            else:
+                ck.count(f"rejections.python-O.{o[7:]}")
+        return True, {"snippets": len(snips)}
     if kind == "malformed":
         bad = [
             lambda: Bounds(M=(1, 2, 3), tau=(0, 1)),
